@@ -287,10 +287,25 @@ impl<'tcx> Cx<'tcx> {
         J::O(vec![("local", n(p.local.as_usize())), ("proj", J::A(proj))])
     }
 
+    /// name of the item, or of the nearest named ancestor for closures (which have no name)
+    fn safe_name(&self, d: DefId) -> String {
+        let tcx = self.tcx;
+        let mut cur = d;
+        loop {
+            if let Some(nm) = tcx.opt_item_name(cur) {
+                return nm.to_string();
+            }
+            match tcx.opt_parent(cur) {
+                Some(p) => cur = p,
+                None => return String::from("?"),
+            }
+        }
+    }
+
     fn fn_ref(&mut self, owner: DefId, d: DefId, args: ty::GenericArgsRef<'tcx>) -> J {
         let tcx = self.tcx;
         let mut o: Vec<(&'static str, J)> = vec![("path", s(self.path(d)))];
-        o.push(("name", s(tcx.item_name(d))));
+        o.push(("name", s(self.safe_name(d))));
         o.push(("local", J::B(d.is_local())));
         o.push(("krate", s(tcx.crate_name(d.krate))));
         let a: Vec<J> = args.iter().map(|a| self.garg(a)).collect();
@@ -588,7 +603,7 @@ impl<'tcx> Cx<'tcx> {
         }
         let body: &Body<'tcx> = tcx.optimized_mir(d);
         let mut o: Vec<(&'static str, J)> = vec![("path", s(self.path(d))), ("kind", s(kn))];
-        o.push(("name", s(tcx.item_name(if kind == DefKind::Closure { tcx.parent(d) } else { d }))));
+        o.push(("name", s(self.safe_name(d))));
         o.push(("span", self.span(tcx.def_span(d))));
         o.push(("arg_count", n(body.arg_count)));
         if matches!(kind, DefKind::Fn | DefKind::AssocFn) {
